@@ -53,6 +53,11 @@ def generate(seed: int, tier: str, idx: int) -> dict:
     s = stream(seed, "c08")
     sc = gen.gen_scenario(seed, PROFILE)
     gen.make_restartable(sc)
+    if sc.get("ibm", {}).get("age") and stream(seed, "c08.packed").chance(0.35):
+        # a state variable written packed (integer type plus scale_factor, as examples/killer/dense.yaml does):
+        # the age counts whole steps, halves are exactly representable, so the restart loses nothing
+        sc["output"]["ivars"]["age"] = "i4"
+        sc["output"]["packed"] = {"age": 0.5}
     if s.chance(0.4):
         # output base names ending in digits or an underscore (the restart continues "<base>_NNN.nc")
         sc["output"]["filename"] = s.pick(["run2.nc", "exp30.nc", "a_b.nc", "res_.nc", "t1000.nc"])
@@ -216,6 +221,8 @@ def execute(sc) -> Result:
             res.probes["rk"] += 1
         if sc["output"].get("pvars") and res.probes["restart"]:
             res.probes["particle_variables"] += 1
+        if sc["output"].get("packed") and res.probes["restart"]:
+            res.probes["packed_state_variable_in_restart_file"] += 1
     finally:
         for d in dirs:
             world.rm_dir(d)
